@@ -377,10 +377,10 @@ def mutate(rng, env, name, inp):
             if f[1] not in inp and f[0] in inp:
                 continue
             v = rng.choice(WRONG)
-            if _has_lit(env, f[2]) and isinstance(v, (bool, float)):
+            if _has_lit(env, f[2]) and (isinstance(v, (bool, int, float)) or (isinstance(v, list) and v and isinstance(v[0], (bool, int, float)))):
                 continue      # Literal membership is Python equality (True == 1 == 1.0)
-            if _has_obj(f[2]) and isinstance(v, list):
-                continue      # pydantic turns a list of pairs into a dict for model fields
+            if _has_obj(f[2]) and (isinstance(v, list) or v == ""):
+                continue      # pydantic feeds non-dict input of a model field to dict(): [] and "" become {}
             inp[f[1]] = v
             return inp
         if op == "extra":
@@ -1072,6 +1072,37 @@ def list_installed(_=None):
                   if not str(k.name).startswith("vt."))
 
 
+def probe_edges(_=None):
+    """Observations outside the property's quantifier, recorded in the evidence notes (never a violation):
+    an untagged Union with overlapping members, and strings the YAML text level does not preserve."""
+    out = {"status": "ok"}
+    try:
+        with vlib.time_limit(120):
+            from typing import Union
+            from metador_core.schema import MetadataSchema
+            from metador_core.schema.types import Duration, NonEmptyStr, Str
+            mk = type(MetadataSchema)
+            U = mk("ProbeUnion", (MetadataSchema,), {"__annotations__": {"v": Union[Duration, Str]}, "__module__": __name__})
+            o = U(v=" PT1S ")
+            b = U.parse_raw(o.json())
+            out["union"] = {"held": type(o.v).__name__, "reparsed": type(b.v).__name__, "equal": bool(b == o)}
+            Y = mk("ProbeYaml", (MetadataSchema,), {"__annotations__": {"s": NonEmptyStr}, "__module__": __name__})
+            lost = []
+            for s_ in ["\x85a", "a\u2028b", "a\u2029b", "\xa0a", "a\x0bb", "a\x0cb", "a\rb", "a\x1cb", "a\x7fb", "\ufeffa", "a\x00b", "a\x08b"]:
+                y = Y(s=s_)
+                for form in FORMS:
+                    try:
+                        ok = Y.parse_raw(_ser(y, form)) == y
+                    except Exception as e:  # noqa: BLE001
+                        ok = type(e).__name__
+                    if ok is not True:
+                        lost.append([repr(s_), form, ok])
+            out["text_level_lost"] = lost
+    except Exception as e:  # noqa: BLE001
+        out["status"] = _exc(e)
+    return out
+
+
 # ------------------------------------------------------------------------------------------
 # single-case evaluation in this process (shrinking and replay)
 
@@ -1181,6 +1212,22 @@ def run(ctx: vlib.Ctx):
     installed = vlib.pmap(list_installed, [None, None], procs=2)[0]
     ijobs = [{"name": n, "version": v, "n": ctx.budget(10, 30), "seed": rng.randrange(2 ** 31)} for (n, v) in installed]
     iresults = vlib.pmap(eval_installed, ijobs)
+
+    edges = vlib.pmap(probe_edges, [None, None], procs=2)[0]
+    umodel = vlib.run_model("c12", [["dump", [["dur", "PT1S", "PT1S"]], ["union", "dur", "str"], ["un", "1", ["s", "PT1S"]]]])[0]
+    cov["observations"] = {
+        "untagged_union_overlap": {"code": edges.get("union"), "model_wtb": umodel[1], "model_reparsed": umodel[4],
+                                   "meaning": "Union[Duration, Str] given ' PT1S ': the instance holds the stripped str, its dump re-parses as a Duration; "
+                                              "excluded from the quantifier by wtb (C12_union_first_match), not a violation"},
+        "yaml_text_level": {"strings_not_preserved": edges.get("text_level_lost"),
+                            "meaning": "control / line-separator characters the third-party YAML printer+parser pair does not preserve; "
+                                       "outside the generated alphabet (premise yaml_rt), not a violation"},
+        "probe_status": edges.get("status"),
+    }
+    u = edges.get("union") or {}
+    if u and not (u.get("held") == "str" and u.get("reparsed") == "Duration" and umodel[1] == "F"
+                  and umodel[4] == [["un", "0", ["cus", "PT1S"]]]):
+        ctx.notes.append(f"overlap probe: model and code differ: code {u}, model {umodel}")
 
     # ---- 3. oracle verdicts (code alone)
     n_classes = sum(len(j["uni"]["classes"]) for j in jobs)
@@ -1383,12 +1430,17 @@ def run(ctx: vlib.Ctx):
     cov["disagreements"] = len(disagreements)
     cov["correspondence"] = {
         "theorems_tied": ["C12_parse_dump", "C12_second_roundtrip_stable", "C12_consts_forced", "C12_consts_ignored",
-                          "C12_explicit_none_default", "C12_custom_parses_own_output"],
+                          "C12_explicit_none_default", "C12_custom_parses_own_output", "C12_parsed_atoms_valid",
+                          "C12_dump_pinned_refuted (on the pinned tree: serialise-raises)"],
         "how": "dump/wfb/wtb/omitsb/parse of Schema/RoundTrip.v evaluated by the extracted runner on the harness-side typed value of "
                "every built instance and on mutated inputs, compared with json_dict()/parse_obj of the real classes",
     }
     if harness_problems:
         ctx.notes.append(f"{len(harness_problems)} universes not evaluated: {harness_problems[:3]}")
+    ctor_rej = [rec["ctor_rejected"] for res in results if res["status"] == "ok" for rec in res["instances"] if rec.get("ctor_rejected")]
+    if ctor_rej:
+        ctx.notes.append(f"observation (not C12): the constructor rejected {len(ctor_rej)} inputs given as Python objects that the same "
+                         f"schema accepts as strings (e.g. a zero PintQuantity is falsy: 'if not v' in PintParser.parse), first: {ctor_rej[0][:200]}")
     if non_validation:
         ctx.notes.append(f"observation (not C12): parse_obj raised something other than ValidationError on {len(non_validation)} "
                          f"invalid inputs, e.g. {non_validation[0]}")
